@@ -93,6 +93,27 @@ func (e *C11) Run(c *core.Ctx, idx int) {
 		if r.Bool() {
 			h = []byte("MM\x00*\x00\x00\x00\x08")
 		}
+		if r.Chance(1, 3) {
+			// the first directory does not follow the header directly (legal: the offset says where
+			// it is): a gap of 1..64 bytes, then an empty or one-entry directory
+			g := r.Pick(1, 2, 8, 8, 16, 64)
+			le := h[0] == 'I'
+			if le {
+				h[4], h[7] = byte(8+g), 0
+			} else {
+				h[7], h[4] = byte(8+g), 0
+			}
+			out := append(h, r.Bytes(g)...)
+			if r.Bool() {
+				return append(out, 0, 0, 0, 0, 0, 0)
+			}
+			e := []byte{0x01, 0x0f, 0x00, 0x02, 0, 0, 0, 2, 'C', 0, 0, 0} // Make = "C"
+			if le {
+				e = []byte{0x0f, 0x01, 0x02, 0x00, 2, 0, 0, 0, 'C', 0, 0, 0}
+				return append(append(append(out, 1, 0), e...), 0, 0, 0, 0)
+			}
+			return append(append(append(out, 0, 1), e...), 0, 0, 0, 0)
+		}
 		return append(h, make([]byte, r.Pick(0, 2, 6, 7, 8, 9))...)
 	}
 	if heif {
@@ -114,7 +135,7 @@ func (e *C11) Run(c *core.Ctx, idx int) {
 		malformed = false
 	} else {
 		mk := func() []byte {
-			if r.Chance(1, 8) {
+			if r.Chance(1, 5) {
 				return tiny()
 			}
 			t, _, _ := gen.SynthPayload(r, r.Bool(), 2)
